@@ -67,6 +67,11 @@ def build_matrix(extended=False):
                 cells.append({"kind": "wrong-output-kind", "cmd": cmd, "param": pname, "producer": "out"})
                 if p["fz"] is not None:
                     cells.append({"kind": "fuzzy-swap", "cmd": cmd, "param": pname, "needs_fuzzy": p["fz"]})
+    from ..refmodel.declarations import FUZZY
+    for cmd in sorted(FUZZY):
+        # the command exists, but not in the libraries selected for this program (an earlier program of the same
+        # process selected them)
+        cells.append({"kind": "unselected-library", "cmd": cmd})
     return cells
 
 
@@ -124,6 +129,9 @@ def concretise(rng, model, cell):
     tgt = pick_target(rng, model, cell["cmd"])
     f = {"kind": cell["kind"], "target": tgt["name"], "cmd": cell["cmd"]}
     env = None
+    if cell["kind"] == "unselected-library":
+        f["libraries"] = ["mpilot.libraries.eems.basic", "mpilot.libraries.eems.csv"]
+        f["names"] = sorted({c["cmd"] for c in model["cmds"] if DECL[c["cmd"]].get("fuzzy") or c["cmd"] == "CvtFromFuzzy"})
     if cell["kind"] in ("missing-param",):
         if cell["param"] not in tgt["args"]:
             return None
@@ -202,7 +210,9 @@ def apply_fault(nodes, fault):
                 return a[1]
         return None
 
-    if kind == "unknown-command":
+    if kind == "unselected-library":
+        pass
+    elif kind == "unknown-command":
         node["cmd"] = "NoSuchCommand"
     elif kind == "duplicate-result":
         dup = copy.deepcopy(node)
@@ -236,6 +246,8 @@ def expected_errors(fault):
     k = fault["kind"]
     if k == "unknown-command":
         return [("CommandDoesNotExist", {"name": "NoSuchCommand"})]
+    if k == "unselected-library":
+        return [("CommandDoesNotExist", {"name": n}) for n in fault["names"]]
     if k == "duplicate-result":
         return [("DuplicateResult", {"result": fault["target"]})]
     if k == "missing-param":
@@ -356,6 +368,8 @@ def _generate12(rng, index, tier):
         _absolutise(model)
         if fault["param"] == "InFileName":
             fault["value"] = "in.csv"
+    if fault and fault["kind"] == "unselected-library":
+        route = "lib"
     if fault and fault["kind"] == "duplicate-result":
         fault["dup_pos"] = rng.randint(0, len(model["cmds"]) + 1)
     if fault and fault["kind"] == "extra-param":
@@ -697,7 +711,8 @@ def _execute12(sc):
     paths = _paths(model)
     label = _fault_label(fault)
     with Hygiene():
-        out = run_once(sc, log, res, "lib", text, csv, [], [], [])
+        libs = tuple(fault["libraries"]) if fault and fault.get("libraries") else None
+        out = run_once(sc, log, res, "lib", text, csv, [], [], [], libraries=libs)
         _judge12(sc, res, log, out, fault, label, paths, "lib")
         if sc["route"] == "cli" and not sc.get("no_wd"):
             start = log.seq
